@@ -37,6 +37,10 @@ def cases(tier, seed, extra=(), long=False):
             if inst.family == "homo-dir" and not inst.name.endswith("|1.5"):
                 continue
             yield ("instance", {"inst": Instance(inst.name + "|mirror", inst.spec, inst.menu, inst.family + "-mirror", mirror=True).as_json(), "tier": tier})
+    # observers first (printing, reaction graph twice, stochastic atom graph), then generation from the SAME object
+    for inst in fam:
+        if inst.family in ("transitions", "handover-details", "branched", "end-initiated", "mixed-bond-orders", "handover", "rand-copolymer"):
+            yield ("instance", {"inst": Instance(inst.name + "|after-graphs", inst.spec, inst.menu, inst.family + "-after-graphs", pre="graphs").as_json(), "tier": tier})
     # the same parsed object generating every execution (history between generations of one object)
     for inst in fam:
         if inst.family in ("end-initiated", "transitions", "branched", "handover", "block", "bond-order", "handover-details") or tier == "thorough":
